@@ -162,6 +162,7 @@ def load_known(pid: str):
 class Ctx:
     MAX_SAMPLES = 6
     SHRINK_CALL_LIMIT = 400
+    SHRINK_SECONDS = 20
 
     def __init__(self, pid: str, tier: str, seed: int, shard: int = 0, nshards: int = 1, subchecks=None):
         self.pid = pid
@@ -290,7 +291,7 @@ class Ctx:
             return
         ctx = self
         limit = self.SHRINK_CALL_LIMIT
-        state = {"best": None, "calls_after_fail": 0}
+        state = {"best": None, "calls_after_fail": 0, "t_fail": None}
 
         @hypothesis.seed(self.seed_for(sub))
         @settings(
@@ -307,7 +308,8 @@ class Ctx:
         def test(case):
             if state["best"] is not None:
                 state["calls_after_fail"] += 1
-                if state["calls_after_fail"] > limit:
+                # (the wall-clock bound only limits how far a failure is minimised, never the verdict)
+                if state["calls_after_fail"] > limit or time.time() - state["t_fail"] > self.SHRINK_SECONDS:
                     # shrink budget used up: only the best known failing case still fails
                     if canon(case) == canon(state["best"][0]):
                         raise state["best"][1]
@@ -315,7 +317,12 @@ class Ctx:
             try:
                 ctx.execute(sub, fn, case, timeout=timeout, count=state["best"] is None)
             except Failure as f:
+                if state["t_fail"] is None:
+                    state["t_fail"] = time.time()
                 state["best"] = (case, f)
+                if f.sig == "hang":
+                    # never try to minimise a non-terminating case: every attempt costs a full timeout
+                    state["t_fail"] = -1e18
                 raise
 
         try:
@@ -331,7 +338,7 @@ class Ctx:
         for v in self.violations:
             if v["sig"] == sig:
                 return len(self.violations)
-        path = write_replay(self.pid, sub, getattr(f, "min_case", None) or case, sig, f.msg)
+        path = write_replay(self.pid, getattr(f, "min_sub", None) or sub, getattr(f, "min_case", None) or case, sig, f.msg)
         self.violations.append({"sub": sub, "sig": sig, "msg": f.msg[:2000], "replay": path})
         return len(self.violations)
 
